@@ -47,6 +47,13 @@ Fixpoint run_hops (fr : frag) (hs : list hop) : list oclass * option frag :=
 (* the additions of a history *)
 Definition adds (hs : list hop) : list op :=
   flat_map (fun h => match h with HAdd o => [o] | HEnc _ => [] end) hs.
+(* the outcome classes of the additions (those of the Encode calls dropped) *)
+Fixpoint add_classes (hs : list hop) (cs : list oclass) : list oclass :=
+  match hs, cs with
+  | HAdd _ :: hs', c :: cs' => c :: add_classes hs' cs'
+  | HEnc _ :: hs', _ :: cs' => add_classes hs' cs'
+  | _, _ => []
+  end.
 (* every Encode in the history is a plain one (no trun optimisation) *)
 Definition plain (hs : list hop) : bool :=
   forallb (fun h => match h with HEnc true => false | _ => true end) hs.
